@@ -365,7 +365,8 @@ Section Sweeps.
     valid (nd s' x) = true /\ lr (nd s' x) = [] /\
     agg (nd s' x) = N.min (sched (nd s' x)) (first_sched_agg (nd s') x) /\
     (parent (nd s x) = None \/ su (cur (nd s' x))) /\
-    mn' = N.min mn (agg (nd s' x)).
+    mn' = N.min mn (agg (nd s' x)) /\
+    (forall z, cur (nd s' z) = LRecalc -> cur (nd s z) = LRecalc).
   Proof.
     induction f as [|f IH]; intros G s x mn s' mn' Hg Hrn H; [discriminate|]. simpl in H.
     destruct (get_self gt f s x now) as [s1|] eqn:Hself; [|discriminate].
@@ -377,36 +378,39 @@ Section Sweeps.
       (forall y, parent (nd si y) = parent (nd s y) /\ alive (nd si y) = alive (nd s y)) /\
       (forall z, ~ desc (nd s) x z -> same_fields (nd s) (nd si) z) /\
       valid (nd si x) = true /\ cur (nd si x) = cur (nd s x) /\
+      (forall z, cur (nd si z) = LRecalc -> cur (nd s z) = LRecalc) /\
       (mi <= mn)%N /\
       (forall B, (B <= mn)%N ->
          (forall c, parent (nd si c) = Some x -> su (cur (nd si c)) -> (B <= agg (nd si c))%N) -> (B <= mi)%N)).
     assert (HP1 : P s1 mn).
-    { unfold P. split; [assumption|]. split; [|split; [|split; [assumption|split; [|split]]]].
+    { unfold P. split; [assumption|]. split; [|split; [|split; [assumption|split; [|split; [|split]]]]].
       - intro y. destruct (Hst1 y) as (H1&_&_&_&_&H2). auto.
       - intros z Hz. assert (z <> x) by (intro; subst; apply Hz; constructor).
         unfold same_fields. rewrite Ho1 by assumption. repeat split.
       - now destruct (Hst1 x) as (_&?&_).
+      - intros z. destruct (Hst1 z) as (_&->&_). auto.
       - apply N.le_refl.
       - intros B HB _. exact HB. }
     assert (Hstep : forall si c t mi si1 mi1, P si mi -> lr (nd si x) = c :: t ->
                       get_aux gt f now si c mi = Some (si1, mi1) -> P si1 mi1).
-    { intros si c t mi si1 mi1 (Hgi & Hpi & Hfi & Hvi & Hci & Hmi & HQi) Hl Hcall.
+    { intros si c t mi si1 mi1 (Hgi & Hpi & Hfi & Hvi & Hci & Hmono & Hmi & HQi) Hl Hcall.
       pose proof (i_core _ (g_inv _ _ Hgi)) as Hcore. pose proof (c_wf _ Hcore) as Hwf.
       assert (Hcin : In c (get_list (nd si x) LRecalc)) by (simpl; rewrite Hl; now left).
       destruct (wf_in _ _ Hwf x c LRecalc Hcin) as [Hpc Hcc].
-      destruct (IH G si c mi si1 mi1 Hgi (or_introl Hcc) Hcall) as (Hg' & Hp' & Hf' & Hv' & Hlr' & Hagg' & Hsu' & Hmn').
+      destruct (IH G si c mi si1 mi1 Hgi (or_introl Hcc) Hcall) as (Hg' & Hp' & Hf' & Hv' & Hlr' & Hagg' & Hsu' & Hmn' & Hmono').
       assert (Hncx : ~ desc (nd si) c x) by (apply acyc_no_cycle; [apply (c_acyc _ Hcore)|assumption]).
       assert (Hdsub : forall z, desc (nd si) c z -> desc (nd s) x z).
       { intros z Hd. apply desc_trans with (b := c).
         - eapply desc_child; [constructor|]. destruct (Hpi c) as [Hq _]. congruence.
         - apply (desc_parent_ext (nd si)); [|assumption]. intro y. now destruct (Hpi y) as [? _]. }
-      unfold P. split; [assumption|]. split; [|split; [|split; [|split; [|split]]]].
+      unfold P. split; [assumption|]. split; [|split; [|split; [|split; [|split; [|split]]]]].
       - intro y. destruct (Hp' y) as [H1 H2]. destruct (Hpi y) as [H3 H4]. split; congruence.
       - intros z Hz. destruct (Hfi z Hz) as (F1&F2&F3&F4).
         destruct (Hf' z) as (E1&E2&E3&E4); [intro Hd; apply Hz; now apply Hdsub|].
         repeat split; congruence.
       - destruct (Hf' x Hncx) as (_&E2&_). congruence.
       - destruct (Hf' x Hncx) as (E1&_). congruence.
+      - intros z Hz. auto.
       - rewrite Hmn'. etransitivity; [apply N.le_min_l|assumption].
       - intros B HB Hall. rewrite Hmn'. apply N.min_glb.
         + apply HQi; [assumption|]. intros c' Hpc' Hsu'c.
@@ -421,7 +425,7 @@ Section Sweeps.
           * destruct (Hp' c) as [Hq _]. congruence.
           * destruct Hsu' as [Hn|Hs]; [congruence|assumption]. }
     destruct (loop_recalc_ind P (get_aux gt f now) x Hstep f s1 mn s2 mn2 HP1 Hloop)
-      as ((Hg2 & Hp2 & Hf2 & Hv2 & Hc2 & Hm2 & HQ2) & Hlr2).
+      as ((Hg2 & Hp2 & Hf2 & Hv2 & Hc2 & Hmono2 & Hm2 & HQ2) & Hlr2).
     assert (Hrn2 : rn (cur (nd s2 x))) by (rewrite Hc2; assumption).
     destruct (get_finish_good G f s2 x mn2 s' mn' Hg2 Hrn2 Hv2 Hlr2 H)
       as (Hg' & [Hfp Hfo] & Hv' & Hs' & Ha' & Hsu' & HL' & _ & Hmn').
@@ -434,7 +438,7 @@ Section Sweeps.
       assert (h <> x).
       { intro; subst h. destruct (wf_in _ _ Hwf2 x x LSched) as [Hp _]; [simpl; rewrite Hls; now left|]. contradiction. }
       now destruct (Hfo h H0) as (_&_&_&?). }
-    split; [assumption|]. split; [|split; [|split; [assumption|split; [|split; [|split]]]]].
+    split; [assumption|]. split; [|split; [|split; [assumption|split; [|split; [|split; [|split]]]]]].
     - intro y. destruct (Hfp y) as [H1 H2]. destruct (Hp2 y) as [H3 H4]. split; congruence.
     - intros z Hz. assert (z <> x) by (intro; subst; apply Hz; constructor).
       destruct (Hf2 z Hz) as (F1&F2&F3&F4). destruct (Hfo z H0) as (E1&E2&E3&E4). repeat split; congruence.
@@ -453,5 +457,11 @@ Section Sweeps.
         - destruct (c_k4 _ Hcore2 c) as [_ Hu]. rewrite (Hu Huc).
           unfold first_sched_agg. destruct (ls (nd s2 x)) as [|h t]; [apply N.le_refl|apply (c_k6 _ Hcore2)]. }
       lia.
+    - intros z Hz. apply Hmono2. destruct (Nat.eq_dec z x) as [->|Hzx].
+      + destruct Hsu' as [Hn|Hs]; [|rewrite Hz in Hs; destruct Hs; discriminate].
+        (* no parent: _curList is untouched *)
+        rewrite (wf_root _ _ (c_wf _ (i_core _ (g_inv _ _ Hg'))) x) in Hz; [discriminate|].
+        destruct (Hfp x) as [Hq _]. congruence.
+      + now destruct (Hfo z Hzx) as (<-&_).
   Qed.
 End Sweeps.
